@@ -231,21 +231,26 @@ Proof.
 Qed.
 
 Lemma Inv_forward c st st' S k tok fee max exp target fn args user relayer au ret :
-  forward_post c st st' k tok fee max exp target fn args user relayer au ret -> Inv st S -> Inv st' S.
+  wfc c ->
+  forward c st k tok fee max exp target fn args user relayer au = Ok (st', ret) -> Inv st S -> Inv st' S.
 Proof.
-  intros P I. constructor.
-  - rewrite (fp_al _ _ _ _ _ _ _ _ _ _ _ _ _ _ _ P). apply (inv_wf _ _ I).
-  - rewrite (fp_al _ _ _ _ _ _ _ _ _ _ _ _ _ _ _ P). apply (inv_set _ _ I).
-  - intros t. destruct (N.eq_dec t tok) as [->|Hn].
-    + apply (cp_inv _ _ _ _ _ _ _ _ _ _ _ _ _ _ (fp_collect _ _ _ _ _ _ _ _ _ _ _ _ _ _ _ P)). apply (inv_alw _ _ I).
-    + rewrite (fp_other _ _ _ _ _ _ _ _ _ _ _ _ _ _ _ P) by exact Hn. apply (inv_alw _ _ I).
+  intros Hw H I.
+  destruct (forward_open _ _ _ _ _ _ _ _ _ _ _ _ _ _ _ Hw H) as [t' [ts3 [ent [tks' [Q [Hen [Hb [-> _]]]]]]]].
+  constructor; cbn [al].
+  - apply (inv_wf _ _ I).
+  - apply (inv_set _ _ I).
+  - assert (Hi : toks_inv (alist_set tok t' (toks st))).
+    { apply toks_inv_set.
+      - intros t. apply (inv_alw _ _ I t).
+      - apply (cp_inv _ _ _ _ _ _ _ _ _ _ _ _ _ _ (fq_collect _ _ _ _ _ _ _ _ _ _ _ _ _ _ Q)). apply (inv_alw _ _ I). }
+    exact (target_body_inv _ _ _ _ _ _ _ _ _ _ Hw Hb Hi).
 Qed.
 
 Lemma step_ok_mon c st S cl st' ret :
-  wfc c -> Inv st S -> step_ok c st cl = Ok (st', ret) ->
+  wfc c -> wf_call c cl = true -> Inv st S -> step_ok c st cl = Ok (st', ret) ->
   exists S', mon_call c S (observe c st) (observe c st') cl ret = (true, S') /\ Inv st' S'.
 Proof.
-  intros Hw I. destruct cl as [n|tok to amt|tok owner spender amt exp au|k tok fee max exp target fn args user relayer au
+  intros Hw Hwf I. destruct cl as [n|tok to amt|tok owner spender amt exp au|k tok fee max exp target fn args user relayer au
                               |allowed tok operator au|tok recipient operator au]; cbn [step_ok mon_call].
   - (* Advance *)
     destruct (n <? 0) eqn:En; [discriminate|]. apply Z.ltb_ge in En.
@@ -309,7 +314,7 @@ Proof.
       * apply Z.eqb_eq. reflexivity.
     + apply Inv_with_tok; [exact I|]. apply (sa_inv _ _ _ _ _ _ _ _ P). apply (inv_alw _ _ I).
   - (* Forward *)
-    intros H. pose proof (forward_spec _ _ _ _ _ _ _ _ _ _ _ _ _ _ _ Hw H) as P. exists S. split.
+    intros H. pose proof (forward_spec _ _ _ _ _ _ _ _ _ _ _ _ _ _ _ Hw Hwf H) as P. exists S. split.
     + f_equal. apply mon_forward_model; [exact P|apply (inv_wf _ _ I)].
     + eapply Inv_forward; eauto.
   - (* SetTok *)
@@ -363,13 +368,25 @@ Proof.
     + apply Inv_with_tok; [exact I|]. intros o s. rewrite (alw_get_same_alw _ _ _ _ Hal). apply (inv_alw _ _ I).
 Qed.
 
+(* the state invariant is preserved by every successful call, well-formed or not *)
+Lemma step_ok_Inv c st S cl st' ret :
+  wfc c -> Inv st S -> step_ok c st cl = Ok (st', ret) ->
+  Inv st' (snd (mon_call c S (observe c st) (observe c st') cl ret)).
+Proof.
+  intros Hw I H. destruct cl as [n|tok to amt|tok owner spender amt exp au|k tok fee max exp target fn args user relayer au
+                               |allowed tok operator au|tok recipient operator au].
+  4:{ cbn [mon_call snd]. cbn [step_ok] in H. eapply Inv_forward; eauto. }
+  all: match type of H with step_ok _ _ ?cl = _ =>
+         destruct (step_ok_mon c st S cl st' ret Hw eq_refl I H) as [S' [Hm I']] end; rewrite Hm; exact I'.
+Qed.
+
 Lemma step_mon c st S cl st' out :
-  wfc c -> Inv st S -> step c st cl = (st', out) ->
+  wfc c -> wf_call c cl = true -> Inv st S -> step c st cl = (st', out) ->
   exists S', mon_step c S (observe c st) (cl, out, observe c st') = (true, S') /\ Inv st' S'.
 Proof.
-  intros Hw I. unfold step. destruct (step_ok c st cl) as [[st1 r]|] eqn:E.
+  intros Hw Hwf I. unfold step. destruct (step_ok c st cl) as [[st1 r]|] eqn:E.
   - intros H. inversion H; subst st' out. clear H.
-    destruct (step_ok_mon _ _ _ _ _ _ Hw I E) as [S' [Hm I']]. exists S'. split; [|exact I'].
+    destruct (step_ok_mon _ _ _ _ _ _ Hw Hwf I E) as [S' [Hm I']]. exists S'. split; [|exact I'].
     unfold mon_step. rewrite Hm. f_equal. cbn [andb].
     apply al_consistent_model; [apply (inv_wf _ _ I')|apply (inv_set _ _ I')].
   - intros H. inversion H; subst st' out. clear H. exists S. split; [|exact I].
@@ -378,18 +395,21 @@ Proof.
 Qed.
 
 Lemma mon_from_model c st S cs i :
-  wfc c -> Inv st S -> mon_from c S (observe c st) (model_items c st cs) i = 0%N.
+  wfc c -> forallb (wf_call c) cs = true -> Inv st S ->
+  mon_from c S (observe c st) (model_items c st cs) i = 0%N.
 Proof.
-  intros Hw. revert st S i. induction cs as [|cl r IH]; intros st S i I; cbn [model_items mon_from]; [reflexivity|].
+  intros Hw. revert st S i. induction cs as [|cl r IH]; intros st S i Hwf I; cbn [model_items mon_from]; [reflexivity|].
+  cbn [forallb] in Hwf. apply andb_true_iff in Hwf. destruct Hwf as [Hwf1 Hwf2].
   destruct (step c st cl) as [st' out] eqn:E. cbn [mon_from].
-  destruct (step_mon _ _ _ _ _ _ Hw I E) as [S' [Hm I']]. rewrite Hm. cbn [snd]. apply IH. exact I'.
+  destruct (step_mon _ _ _ _ _ _ Hw Hwf1 I E) as [S' [Hm I']]. rewrite Hm. cbn [snd]. apply IH; assumption.
 Qed.
 
 Theorem check_accepts_model : forall (c : cfg) (cs : list call),
-  1 <= min_temp_ttl (c_host c) -> check (observe_model c cs) = (0%N, 0%N, 0%N).
+  1 <= min_temp_ttl (c_host c) -> forallb (wf_call c) cs = true ->
+  check (observe_model c cs) = (0%N, 0%N, 0%N).
 Proof.
-  intros c cs Hw. unfold check, observe_model, diff, mon.
+  intros c cs Hw Hwf. unfold check, observe_model, diff, mon.
   rewrite obs_eqb_refl, diff_from_model.
   rewrite (al_consistent_model c (init c) []) by (cbn [al init]; first [apply al_wf_0|apply al_set_0]).
-  rewrite (mon_from_model c (init c) [] cs 0%N Hw (Inv_init c)). reflexivity.
+  rewrite (mon_from_model c (init c) [] cs 0%N Hw Hwf (Inv_init c)). reflexivity.
 Qed.
